@@ -139,3 +139,53 @@ def _points(spec, model):
         if r['name'] == spec['name']:
             return {'confirmed': not r['ok'], 'observed': r['detail'], 'expected': 'the generating enthalpy at every loading, on either branch'}
     return {'confirmed': False, 'error': 'case not found'}
+
+
+def generation_route_cases():
+    """model isotherms generated at several temperatures by the ways a user would write it -- one parameter dictionary updated in a
+    loop and handed to get_isotherm_model each time; a clone of the first model through to_dict / model_from_dict with its K
+    replaced: every isotherm keeps the parameters it was generated with, and the isosteric enthalpy is the generating dH"""
+    import pygaps
+    import pygaps.characterisation as pgc
+    import pygaps.modelling as pgm
+    pygaps.logger.disabled = True
+    dH = 27000.0
+    Ts = (300.0, 320.0, 280.0)
+    Ks = [1e-5 * numpy.exp(dH / (R * T)) for T in Ts]
+    meta = dict(material='pgv_c19', adsorbate='nitrogen', pressure_mode='absolute', pressure_unit='bar', loading_basis='molar', loading_unit='mmol',
+                material_basis='mass', material_unit='g', temperature_unit='K')
+    for mname, extra in (('Langmuir', {}), ('Toth', {'t': 0.8})):
+        for route in ('one_dictionary_updated', 'clone_through_to_dict'):
+            isos = []
+            try:
+                if route == 'one_dictionary_updated':
+                    params = dict({'n_m': 5.0, 'K': None}, **extra)
+                    for T, K in zip(Ts, Ks):
+                        params['K'] = K
+                        m = pgm.get_isotherm_model(mname, parameters=params, pressure_range=(0.0, 10.0), loading_range=(0.0, 5.0), rmse=0.0)
+                        isos.append(pygaps.ModelIsotherm(model=m, temperature=T, **meta))
+                else:
+                    first = pgm.get_isotherm_model(mname, parameters=dict({'n_m': 5.0, 'K': Ks[0]}, **extra), pressure_range=(0.0, 10.0), loading_range=(0.0, 5.0), rmse=0.0)
+                    isos.append(pygaps.ModelIsotherm(model=first, temperature=Ts[0], **meta))
+                    for T, K in zip(Ts[1:], Ks[1:]):
+                        clone = pgm.model_from_dict(dict(first.to_dict()))
+                        clone.params['K'] = K
+                        isos.append(pygaps.ModelIsotherm(model=clone, temperature=T, **meta))
+                probs = []
+                got_K = [float(i.model.params['K']) for i in isos]
+                if not numpy.allclose(got_K, Ks, rtol=1e-12):
+                    probs.append(f"K carried by the isotherms {got_K}, generated with {Ks}")
+                h = numpy.asarray(pgc.isosteric_enthalpy(isos, loading_points=[0.5, 1.0, 2.5])['isosteric_enthalpy'], dtype=float)
+                if not numpy.allclose(h, dH / 1000, rtol=1e-6):
+                    probs.append(f"isosteric enthalpy {h}, generating value {dH / 1000}")
+            except Exception as exc:
+                probs = [f"{type(exc).__name__}: {exc}"[:160]]
+            yield {'name': f"generation_route|{mname}|{route}", 'ok': not probs, 'detail': '; '.join(probs)}
+
+
+@replayer('c19.generation')
+def _generation(spec, model):
+    for r in generation_route_cases():
+        if r['name'] == spec['name']:
+            return {'confirmed': not r['ok'], 'observed': r['detail'], 'expected': 'every isotherm keeps its own parameters; the enthalpy is the generating one'}
+    return {'confirmed': False, 'error': 'case not found'}
